@@ -131,7 +131,8 @@ def r12(chk):
     ok = False
     detail = {}
     if len(pops) == 1:
-        v = pops[0].value
+        from ..canon import expand_locals as _xl
+        v = _xl(pops[0].value, fn, stop=(NN_, "x"))  # the pilot array / the number of copies may be named first
         detail["population"] = norm(v)[:160]
         if isinstance(v, ast.Subscript) and isinstance(v.slice, ast.Slice) and isinstance(v.value, ast.Call):
             call = v.value
@@ -393,7 +394,7 @@ def r4(chk):
 
 def r5(chk):
     # Contest.find_sample_size
-    fn = chk.fn(REL, "Contest.find_sample_size")
+    fn = chk.fn(REL, "Contest.find_sample_size", canonical=True)
     where = W("Contest.find_sample_size")
     loops = [l for l in fn.body if isinstance(l, ast.For)]
     ok = False
